@@ -92,6 +92,23 @@ def main():
     ids = list(range(100, 100 + n))
     if spec.get("dup_ids"):
         ids = ids + ids[: max(1, n // 4)]
+    # the file front ends submit (old path, new path) tuples; the worker derives a device name from "<name>.cfg" when there is one
+    to_int = {}
+    if spec.get("tuple_ids"):
+        exts = [".cfg", ".conf", ".txt", "", ".cfg.bak", ".CFG"]
+        tids = []
+        for i in ids:
+            t = ("/nonexistent/old/dev%d%s" % (i, exts[i % len(exts)]), "/nonexistent/new/dev%d%s" % (i, exts[i % len(exts)]))
+            to_int[t] = i
+            tids.append(t)
+        submit_ids = tids
+    else:
+        submit_ids = ids
+
+    def as_int(x):
+        if isinstance(x, (tuple, list)):
+            return to_int.get(tuple(x), -1)
+        return x
     raising = set(spec.get("raising", []))
     task_ms, task_jitter = spec.get("task_ms", 0), spec.get("task_jitter", False)
     cons_ms = spec.get("consumer_ms", 0)
@@ -102,12 +119,19 @@ def main():
     net_always = set(spec.get("net_always", []))    # raise a network error on every attempt
     net_wrapped = set(spec.get("net_wrapped", []))  # raise an error whose __context__ is a network error, on every attempt
     net_flaky = {int(k): v for k, v in spec.get("net_flaky", {}).items()}  # id -> number of failing attempts before success
+    net_flaky_wrapped = {int(k): v for k, v in spec.get("net_flaky_wrapped", {}).items()}  # the same, the network error only being the __context__ of what is raised
     attempts = {}
 
     def f(dev_id):
         import multiprocessing as mp
+        dev_id = as_int(dev_id)
         log("start", id=dev_id, worker=mp.current_process().name)
         attempts[dev_id] = attempts.get(dev_id, 0) + 1
+        if attempts[dev_id] <= net_flaky_wrapped.get(dev_id, 0):
+            try:
+                raise ConnectionResetError("flaky %s attempt %d" % (dev_id, attempts[dev_id]))
+            except ConnectionResetError:
+                raise RuntimeError("session to %s lost" % dev_id)  # implicit chaining: no `from`
         if dev_id in net_always:
             raise (ConnectionResetError if dev_id % 2 else BrokenPipeError)("net %s" % dev_id)
         if dev_id in net_wrapped:
@@ -127,13 +151,13 @@ def main():
         return ["r", dev_id, dev_id * dev_id + salt, "x" * big]
 
     def in_thread_cb(par, tr):
-        log("done", id=tr.device_id, failed=tr.exc is not None)
+        log("done", id=as_int(tr.device_id), failed=tr.exc is not None)
         if cb_ms:
             time.sleep(cb_ms / 1000.0)
         return tr
 
     def parent_cb(par, tr):
-        log("cb", id=tr.device_id)
+        log("cb", id=as_int(tr.device_id))
         return tr
 
     orig_cc = Parallel._check_children
@@ -157,25 +181,25 @@ def main():
     tolerate = spec.get("tolerate_fails", True)
     try:
         if spec.get("api") == "run":
-            success, fail = p.run(ids, tolerate_fails=tolerate)
+            success, fail = p.run(submit_ids, tolerate_fails=tolerate)
             for k, v in success.items():
-                log("deliver", id=k, ok=True, payload=v[:3])
+                log("deliver", id=as_int(k), ok=True, payload=v[:3])
             for k, v in fail.items():
-                log("deliver", id=k, ok=False, exc=type(v).__name__, orig=getattr(getattr(v, "orig_exc_cls", None), "__name__", None),
-                    exc_dev=getattr(v, "device_id", None))
+                log("deliver", id=as_int(k), ok=False, exc=type(v).__name__, orig=getattr(getattr(v, "orig_exc_cls", None), "__name__", None),
+                    exc_dev=as_int(getattr(v, "device_id", None)))
         else:
-            for tr in p.irun(ids, tolerate):
+            for tr in p.irun(submit_ids, tolerate):
                 if tr.exc is None:
-                    log("deliver", id=tr.device_id, ok=True, payload=tr.result[:3])
+                    log("deliver", id=as_int(tr.device_id), ok=True, payload=tr.result[:3])
                 else:
-                    log("deliver", id=tr.device_id, ok=False, exc=type(tr.exc).__name__,
-                        orig=getattr(getattr(tr.exc, "orig_exc_cls", None), "__name__", None), exc_dev=getattr(tr.exc, "device_id", None))
+                    log("deliver", id=as_int(tr.device_id), ok=False, exc=type(tr.exc).__name__,
+                        orig=getattr(getattr(tr.exc, "orig_exc_cls", None), "__name__", None), exc_dev=as_int(getattr(tr.exc, "device_id", None)))
                 if cons_ms:
                     time.sleep(cons_ms / 1000.0)
         log("end", how="normal", tasks_done=p.tasks_done)
     except BaseException as e:  # noqa
         log("end", how="raised", exc=type(e).__name__, orig=getattr(getattr(e, "orig_exc_cls", None), "__name__", None),
-            exc_dev=getattr(e, "device_id", None), msg=str(e)[:200])
+            exc_dev=as_int(getattr(e, "device_id", None)), msg=str(e)[:200])
 
 
 if __name__ == "__main__":
